@@ -19,7 +19,8 @@ clause → theorem
                                                                             `pull_concat`, `empty_payload`
 * failure at any point / vanished producer: an error, never `last` ....... `fail_never_last`, `vanished_never_last`
 * every depth (0 included), every interleaving: same results, no deadlock  `fifo_schedule_independent`,
-                                                                            `no_deadlock`, `steps_terminate`
+                                                                            `no_deadlock`, `steps_terminate`,
+                                                                            `stuck_means_stopped`, `policy_runs_complete`
 * past the end / after release: an error ................................. `past_end_is_error`, `released_is_error`,
                                                                             `other_streams_untouched`
 * consumer's concatenation = producer's bytes (sync and async pullers) ... `end_to_end`, `async_eq_sync`
@@ -195,6 +196,27 @@ theorem no_deadlock (d : Nat) (s : Sys) (h : s.cons ≠ .stopped) : ∃ st, (s.s
 end with the handler stopped. -/
 theorem steps_terminate (d : Nat) (s s' : Sys) (st : Step) (h : s.step d st = some s') :
     s'.measure < s.measure := Sys.step_measure d s s' st h
+
+/-- A schedule that can go no further has a stopped handler — so (with `fifo_schedule_independent`)
+every maximal interleaving returns exactly the results of the sent sequence. -/
+theorem stuck_means_stopped (d : Nat) (s : Sys) (h : ∀ st, s.step d st = none) : s.cons = .stopped := by
+  apply Classical.byContradiction
+  intro hc
+  obtain ⟨st, hst⟩ := Sys.progress d s hc
+  rw [h st] at hst
+  simp at hst
+
+/-- The three scheduling policies the model executable runs (producer first = slow consumer,
+consumer first = slow producer, alternate) all run to completion and deliver the same results. -/
+theorem policy_runs_complete (d : Nat) (p : Policy) (msgs : List Msg) :
+    deliverMsgs d p msgs = feedRun .fresh msgs := by
+  unfold deliverMsgs
+  have ht := Sys.runPolicy_total d p (3 * msgs.length + 4) 0 { toSend := msgs }
+  have hs := Sys.runPolicy_stops d p (3 * msgs.length + 4) 0 { toSend := msgs }
+    (by simp [Sys.measure]; omega)
+  simp only [Sys.total, List.nil_append] at ht
+  rw [hs, feedRun_stopped, List.append_nil] at ht
+  exact ht
 
 example : (Sys.run 0 { toSend := [.chunk [1], .chunk [2], .end] } [.send, .handoff, .recv, .handoff, .handoff]).out
     = [.ok ([1], false), .ok ([2], true)] := by rfl
